@@ -170,15 +170,20 @@ class Ctx:
         wall = time.time() - self.t0
         if write_evidence and not os.environ.get("SA_NO_EVIDENCE"):
             self._write_evidence(wall, len(unlisted), len(listed), code)
+        self.exit_code = code
         if not self.quiet:
             n_ok = sum(1 for o in self.obligations if o["ok"])
-            print(f"[{self.prop}] tier={self.tier} rules={len(self.rules_applied)} instances={len(self.obligations)} "
-                  f"discharged={n_ok} violations={len(unlisted)} known={len(listed)} errors={len(self.errors)} wall={wall:.2f}s")
-            for r, t in self.rules_applied.items():
-                print(f"  {r}: {self.rule_counts.get(r, 0)} instances - {t}")
-            for l in lines:
-                print(l)
-        self.exit_code = code
+            try:
+                print(f"[{self.prop}] tier={self.tier} rules={len(self.rules_applied)} instances={len(self.obligations)} "
+                      f"discharged={n_ok} violations={len(unlisted)} known={len(listed)} errors={len(self.errors)} wall={wall:.2f}s")
+                for r, t in self.rules_applied.items():
+                    print(f"  {r}: {self.rule_counts.get(r, 0)} instances - {t}")
+                for l in lines:
+                    print(l)
+                import sys as _sys
+                _sys.stdout.flush()
+            except BrokenPipeError:
+                pass
         self.unlisted = unlisted
         self.listed = listed
         return code
